@@ -225,6 +225,105 @@ def job_many(job, tmp):
             "warnings": int(sa.warnings.value), "t_at_1030": (sa[1030].t if nb > 1030 else None), "expected_t_at_1030": (ts[1030] if n > 1030 else None)}
 
 
+def _bits(x):
+    return struct.unpack("<Q", struct.pack("<d", x))[0]
+
+
+def sa_state(sim):
+    """the cadence members of the simulation, doubles as bit patterns (order = record sa_state of coq/C07/Attach.v)"""
+    return [_bits(sim.simulationarchive_auto_interval), _bits(sim.simulationarchive_auto_walltime), int(sim.simulationarchive_auto_step),
+            _bits(sim.simulationarchive_next), int(sim.simulationarchive_next_step), _bits(sim.t), _bits(sim.walltime), int(sim.steps_done)]
+
+
+def _auto_sim():
+    sim = rebound.Simulation()
+    sim.add(m=1.0); sim.add(m=1e-3, a=1.0, e=0.1, inc=0.1); sim.add(m=1e-3, a=2.3, e=0.05, omega=0.4)
+    sim.integrator = "whfast"; sim.dt = 0.1313
+    return sim
+
+
+def _attach(sim, fn, mode, val):
+    if mode == "step":
+        sim.save_to_file(fn, step=val)
+    elif mode == "interval":
+        sim.save_to_file(fn, interval=val)
+    else:
+        sim.save_to_file(fn, walltime=val)
+
+
+def job_attach(job, tmp):
+    """observe reb_simulation_save_to_file_{interval,step,walltime}: cadence state before / after, file size before / after"""
+    fn = os.path.join(tmp, "att.bin")
+    if os.path.exists(fn):
+        os.remove(fn)
+    out = []
+    def obs(sim, mode, val):
+        before = sa_state(sim); sz0 = os.path.getsize(fn) if os.path.exists(fn) else -1
+        _attach(sim, fn, mode, val)
+        out.append({"mode": mode, "val": (_bits(val) if mode != "step" else int(val)), "before": before, "after": sa_state(sim),
+                    "size_before": sz0, "size_after": os.path.getsize(fn) if os.path.exists(fn) else -1})
+    for mode, val, other in (("step", 7, 5), ("interval", 7 * 0.1313 + 0.05, 1.0)):
+        if os.path.exists(fn):
+            os.remove(fn)
+        sim = _auto_sim()
+        for _ in range(job.get("presteps", 3)):
+            sim.step()
+        obs(sim, mode, val)                      # fresh attach
+        obs(sim, mode, val)                      # attach again, same cadence
+        sim.integrate(sim.t + 30 * sim.dt, exact_finish_time=0)
+        for k in job.get("restart_from", [1, 3]):
+            sa = rebound.Simulationarchive(fn, process_warnings=False)
+            s2 = sa[k]; del sa
+            obs(s2, mode, val)                   # restart from snapshot k, re-attach with the same cadence
+            s2.step(); s2.step()
+            obs(s2, mode, other)                 # then change the cadence
+            obs(s2, "step" if mode == "interval" else "interval", 3 if mode == "interval" else 0.5)   # other kind of cadence
+        s3 = rebound.Simulationarchive(fn, process_warnings=False)[-1]
+        obs(s3, "walltime", 1e9)
+    return {"obs": out}
+
+
+def job_autocrash(job, tmp):
+    """automatic snapshots (mode step / interval): uninterrupted run vs crash during the write of snapshot j (cut k bytes into
+    the write), restart from the last intact snapshot, re-attach with the SAME cadence, run on; repeated for every (j, frac) of
+    job['crashes'].  Returns count / times / snapshot hashes of both archives."""
+    mode, val, nsteps = job["mode"], job["val"], job["nsteps"]
+    ref = os.path.join(tmp, "ref.bin"); fn = os.path.join(tmp, "run.bin")
+    for p in (ref, fn):
+        if os.path.exists(p):
+            os.remove(p)
+    sim = _auto_sim(); tmax = sim.t + nsteps * sim.dt
+    _attach(sim, ref, mode, val); sim.integrate(tmax, exact_finish_time=0)
+    sa = rebound.Simulationarchive(ref, process_warnings=False)
+    rt = [_bits(sa.t[i]) for i in range(sa.nblobs)]
+    rh, rr = snap_hashes(sa); del sa
+    open(fn, "wb").write(open(ref, "rb").read())
+    done = []
+    for (j, frac) in job["crashes"]:
+        data = open(fn, "rb").read()
+        sa = rebound.Simulationarchive(fn, process_warnings=False)
+        offs = [int(sa.offset[i]) for i in range(sa.nblobs)]; nb = int(sa.nblobs); del sa
+        if not (1 <= j < nb):
+            continue
+        # the file as it was before snapshot j was appended (trailer j-1 with offset_next 0) and after it
+        fa = bytearray(data[:offs[j]]); fa[-4:] = b"\0\0\0\0"; fa = bytes(fa)
+        end = offs[j + 1] if j + 1 < nb else len(data)
+        fb = bytearray(data[:end]); fb[-4:] = b"\0\0\0\0"; fb = bytes(fb)
+        off = len(fa) - 12
+        k = int(frac * (len(fb) - off))
+        open(fn, "wb").write(fa[:off] + fb[off:off + k] + fa[off + k:])
+        sa = rebound.Simulationarchive(fn, process_warnings=False)
+        s2 = sa[-1]; nb0 = int(sa.nblobs); del sa
+        _attach(s2, fn, mode, val)
+        s2.integrate(tmax, exact_finish_time=0)
+        done.append({"j": j, "cut": k, "restart_from": nb0 - 1})
+    sa = rebound.Simulationarchive(fn, process_warnings=False)
+    gt = [_bits(sa.t[i]) for i in range(sa.nblobs)]
+    gh, gr = snap_hashes(sa)
+    return {"ref_n": len(rt), "n": len(gt), "times_equal": gt == rt, "hashes_equal": gh == rh, "relaxed_equal": gr == rr,
+            "ref_t": rt[:40], "t": gt[:40], "cycles": done}
+
+
 def job_spoof(job, tmp):
     """crafted particle coordinates that look like END ++ trailer with a consistent back-link, crash right behind them,
     then the user's recovery: open, restart from the last snapshot, step, append twice.  cut_delta=0: spoof, -1: control"""
@@ -287,7 +386,7 @@ def main():
     with tempfile.TemporaryDirectory(prefix="c06drv") as tmp:
         for job in jobs:
             try:
-                r = {"hist": job_hist, "auto": job_auto, "open": job_open, "resume": job_resume, "spoof": job_spoof, "cycle": job_cycle, "many": job_many}[job["kind"]](job, tmp)
+                r = {"hist": job_hist, "auto": job_auto, "open": job_open, "resume": job_resume, "spoof": job_spoof, "cycle": job_cycle, "many": job_many, "attach": job_attach, "autocrash": job_autocrash}[job["kind"]](job, tmp)
             except Exception as e:
                 import traceback
                 r = {"exception": "%r" % (e,), "tb": traceback.format_exc()[-600:]}
